@@ -39,7 +39,7 @@ THRESH = 256
 _DT = ["f32", "i64", "f16", "bool"]
 _SZ = ["0", "scalar", "8B", "1K", "64K"]
 SINGLE = [f"one-{d}-{s}" for d in _DT for s in _SZ]
-OTHER = ["mix", "deser", "lazy", "big-align", "shared", "subgraph", "init-input", "str-small", "str-big",
+OTHER = ["mix", "deser", "lazy", "big-align", "unnamed", "shared", "subgraph", "init-input", "str-small", "str-big",
          "ext-other", "ext-otherdir", "ext-other-small", "ext-other-touched",
          "ext-dest", "ext-dest-small", "ext-dest-touched",
          "uninit", "uninit-mix", "uninit-sub"]
@@ -54,7 +54,7 @@ PATHKINDS = ["str", "path", "rel", "rel-nested"]
 def model_class(mid):
     if mid.startswith("one-") or mid.startswith("pair-"):
         return "plain"
-    if mid in ("mix", "deser", "lazy", "big-align", "init-input"):
+    if mid in ("mix", "deser", "lazy", "big-align", "init-input", "unnamed"):
         return "plain"
     if mid.startswith("ext-other"):
         return "ext-other"
@@ -197,6 +197,11 @@ def build(mid, root, full_model_path):
         big = _np_data("f32", (1 << 18) + 2, 3)      # 1 MiB + 8 B: above the alignment threshold
         inits += [mem("a", "f32", "1K", 1), (val("big", ir.Tensor(big, name="big")), big.tobytes()),
                   mem("c", "i64", "8B", 2)]
+    elif mid == "unnamed":
+        # tensors without a name of their own (what ir.tensor(array) gives): only the ir.Value is named
+        a1, a2 = _array("f32", "1K", 21), _array("i64", "8B", 22)
+        inits += [(val("w", ir.Tensor(a1)), a1.tobytes()), (val("s", ir.Tensor(a2)), a2.tobytes()),
+                  mem("a", "f16", "1K", 1)]
     elif mid == "shared":
         arr = _array("f32", "1K", 2)
         t = ir.Tensor(arr, name="s")
@@ -548,6 +553,12 @@ def run_once(cfg, fault):
             for f in fn:
                 files_before.add(os.path.relpath(os.path.join(dp, f), d))
         before = snapshot(built)
+        if mid == "unnamed":
+            # onnx_ir's serializer (used by the snapshot) names an unnamed initializer tensor after its value as a
+            # side effect; undo it so that the save really sees tensors without a name of their own
+            for _, vname, v, _ in built.tracked:
+                if vname in ("w", "s") and v.const_value is not None:
+                    v.const_value.name = None
         if cwd:
             os.chdir(cwd)
         kw = {}
